@@ -8,7 +8,6 @@ use crate::u::provgen;
 pub fn gen(ctx: &mut Ctx) -> Vec<String> { provgen::gen_complete(ctx, "c22") }
 
 pub fn exec(req: &str) -> String {
-    if std::env::var("PROV_SKIP").is_ok() { return "skip".into(); }
     match req.split(' ').next().unwrap_or("") {
         "c22.why" => exec_why(req),
         "c22.bpt" => exec_bpt(req),
